@@ -23,6 +23,10 @@ CLAIMED = {
    text="Envelope.tla models the blob as byte cells and decrypt_seed's parsing arithmetic with symbolic key wrap and AEAD; TLC checks RoundTrip, TamperDetected, NoOtherPlaintext over wrapped lengths x plaintext lengths x provider kind x {every header bit and value, byte positions (boundaries in quick, every position in thorough), every truncation, extensions, provider faults on either call}; every decrypt transition is replayed on EnvelopeEncryption with harness KmsProviders; seeded random rounds (wrapped 16..1024, 1-2 tamper ops) are re-decided by TLC (Trace_Envelope.tla) together with byte-scan leak facts.",
    note="AES-GCM and key wrapping are symbolic in the model; the harness providers are injective on wrapped bytes; leak detection is a raw byte scan for seed and DEK.",
    technique="TLA+ byte-cell model + TLC; decrypt transitions replayed into EnvelopeEncryption; recorded rounds validated against Trace_Envelope.tla"),
+ "C16": dict(level="model_checking", ref="6 C16",
+   text="Config.tla states the relation Allowed(written, outcome): must refuse (range-documented key out of range, missing required, unknown key, bad seed), must run with exactly the written values (everything in range), or may refuse but never run with other values. TLC enumerates a valid base plus 1 (quick) / 2 (thorough) edits over an 18-value boundary grid for the six integer keys and the seed/interface/client_stats/persistence/unknown-key variants for both sources; the harness probes every case through make_config + is_valid_config + getters (documented variable names) and TLC decides each probe and a seeded stream of multi-key configurations (Trace_Config.tla).",
+   note="The probe does not start the server; refused = Err, panic or is_valid_config false; TLC ints are 32-bit so observed values above 2e9 are clamped.",
+   technique="TLA+ relation + TLC enumeration of written configurations; probes of the real loaders decided by trace validation"),
 }
 PENDING_REASON = "check not built yet in this session (see DESIGN.md section 6 for the planned TLA+ treatment)"
 
